@@ -41,6 +41,8 @@ type c16Case struct {
 	Cuts   []int    `json:"cuts"`       // cut before these byte offsets
 	Damage string   `json:"damage,omitempty"`
 	BufLen int      `json:"buf_len"`
+	// CallerLen: length of the buffer the caller hands to Read when it differs from buf_len (the maximum message length)
+	CallerLen int `json:"caller_buf_len,omitempty"`
 	// frames expected before / after the damaged region (all frames when undamaged)
 	Pre  int `json:"pre"`
 	Post int `json:"post"`
@@ -63,6 +65,10 @@ func c16Encode(frames [][]byte, bufLen int) (stream []byte, ranges [][2]int) {
 // c16Run feeds stream cut at cuts to a fresh wrapper and returns what a caller
 // of Read sees: the successful non-empty frames, the number of errors, and
 // whether the reader kept returning data beyond any plausible bound.
+// c16CallerLen: when > 0 the caller hands Read a buffer of this length (larger than the wrapper's maximum
+// message length); set for the duration of one part only
+var c16CallerLen int
+
 func c16Run(stream []byte, cuts []int, bufLen int) (got [][]byte, errs int, runaway bool) {
 	d := &scriptDev{}
 	prev := 0
@@ -78,6 +84,9 @@ func c16Run(stream []byte, cuts []int, bufLen int) (got [][]byte, errs int, runa
 			return got, errs, true
 		}
 		buf := make([]byte, bufLen)
+		if c16CallerLen > 0 {
+			buf = make([]byte, c16CallerLen)
+		}
 		n, err := cw.Read(buf)
 		if err == io.EOF {
 			return got, errs, false
@@ -275,6 +284,29 @@ func checkC16(r *mc.Report, thorough bool) {
 	})
 	p.Done()
 
+	// ---- bursts: many small frames delivered by ONE device read into a caller buffer that is much larger than the
+	// maximum message length (what is left over after the first frame exceeds that length)
+	p = r.Part("undamaged-bursts-large-caller-buffer", "12 and 40 small frames in one stream, maximum message length 16 / 32, caller buffer 512: one device read for the whole stream, and every single cut")
+	c16CallerLen = 512
+	for _, nf := range []int{12, 40} {
+		var frames [][]byte
+		for i := 0; i < nf; i++ {
+			frames = append(frames, []byte{byte(i + 1), 0, byte(0xa0 + i%7)})
+		}
+		for _, maxLen := range []int{16, 32} {
+			stream, _ := c16Encode(frames, maxLen)
+			cutSets(len(stream), 1, func(cuts []int) {
+				p.Case(true)
+				p.Step(1)
+				if key, msg := c16Check(frames, stream, cuts, maxLen, len(frames), 0, false); key != "" {
+					p.Violation(key+"/burst", fmt.Sprintf("maximum message length %d, caller buffer 512: %s", maxLen, msg), c16Case{Frames: hexFull(frames), Stream: hex.EncodeToString(stream), Cuts: append([]int{}, cuts...), BufLen: maxLen, CallerLen: 512, Pre: len(frames)})
+				}
+			})
+		}
+	}
+	c16CallerLen = 0
+	p.Done()
+
 	// ---- part 2: undamaged, long frames around the 0xff block boundary and the buffer limit
 	const bigBuf = 600
 	var long [][]byte
@@ -405,10 +437,12 @@ func init() {
 			}
 			frames = append(frames, b)
 		}
+		c16CallerLen = c.CallerLen
+		defer func() { c16CallerLen = 0 }()
 		_, msg := c16Check(frames, stream, c.Cuts, c.BufLen, c.Pre, c.Post, c.Damage != "")
 		return msg
 	}
-	for _, p := range []string{"undamaged-small", "undamaged-long", "single-damage"} {
+	for _, p := range []string{"undamaged-small", "undamaged-long", "single-damage", "undamaged-tight-buffers", "undamaged-bursts-large-caller-buffer"} {
 		replayers["C16/"+p] = replayC16
 	}
 }
